@@ -9,5 +9,5 @@ git clone -q /repo "$D/repo"
 rsync -a --exclude harness/target --exclude harness_c/target --exclude harness_c/target_asan --exclude coq/cases --exclude replays /verif/ "$D/verif/"
 sed -i "s|path = \"/repo\"|path = \"$D/repo\"|" "$D/verif/harness/Cargo.toml"
 sed -i "s|path = \"/repo/bindings/c\"|path = \"$D/repo/bindings/c\"|" "$D/verif/harness_c/Cargo.toml"
-sed -i "s|^REPO = \"/repo\"|REPO = \"$D/repo\"|" "$D/verif/tools/run_seeded.py"
+sed -i "s|^REPO = \"/repo\"|REPO = \"$D/repo\"|" "$D/verif/tools/run_seeded.py" "$D/verif/tools/run_harmless.py"
 echo "universe at $D"
